@@ -40,6 +40,18 @@ func main() {
 		fmt.Fprintln(os.Stderr, "bad tier", tier)
 		os.Exit(2)
 	}
+	if prop == "WARM" { // setup: compile both binaries once so later runs hit the build cache
+		env, err := core.NewEnv(prop, tier)
+		if err == nil {
+			err = env.Build()
+			env.Cleanup()
+		}
+		if err != nil {
+			fmt.Fprintln(os.Stderr, "warm-up build failed:", err)
+			os.Exit(3)
+		}
+		os.Exit(0)
+	}
 	fn, ok := checks.Registry[prop]
 	if !ok {
 		fmt.Fprintln(os.Stderr, "unknown property", prop)
